@@ -326,6 +326,11 @@ def build(chk):
     chk.include(C15, r"^bc/(insub|insup|outsub|outsup|sym)/one-dimensional/", "uses:C15")
     from . import C20
     chk.include(C20, r".", "uses:C20")          # the mesh contract
+    # the integrator half of the statement (R(Q*) = 0 => step(Q*) = Q*): normal forms of the explicit integrators, linear
+    # systems and finite-difference Jacobian of the implicit family (incl. a conserved component that vanishes identically)
+    from . import C05, C06
+    chk.include(C05, r".", "uses:C05")
+    chk.include(C06, r"^size\(n=2,neq=[12]\)/|^fd-step", "uses:C06")
     # the flux consistency clause the zero-residual argument instantiates (every registered flux, C02)
     from . import C02
     chk.include(C02, r"/consistency$", "uses:C02")
